@@ -180,6 +180,7 @@ class IeeeJob:
     def text(self):
         low, f = self.low, self.f
         E = cemit.CEmitter(low)
+        E.abstract_sqrt = getattr(self, 'abstract_sqrt', False)
         clauses = ['__CPROVER_requires(%s)' % r for r in self.requires]
         clauses.append(self.frame())
         clauses += ['__CPROVER_ensures(%s)' % e for e in self.ensures]
